@@ -5,6 +5,7 @@
 import UnytModel.DriverBase
 import UnytModel.Parse
 import UnytModel.Print
+import UnytModel.UnitArith
 
 namespace Unyt
 open Parse Print
@@ -109,6 +110,21 @@ def opsC20 : Handler := fun st fields =>
         | .ok ts => if ts.map canonTok == (renderTokens a).map canonTok then "1" else "0"
         | .error _ => "0"
       some (st, s!"ok\t{resFlat (.ok (evalAst a))}\t{resFlat viaTokens}\t{lexed}")
+    | _, _ => none
+  -- a unit built by unit arithmetic (`__mul__`, `__truediv__`, `__rtruediv__`, `__pow__`) from a
+  -- coefficient-free start unit: its expression, str()/repr() and what they re-parse to
+  | ["c20.arith", f0, prog] =>
+    match Factors.parse f0, UnitArith.parseProg prog with
+    | some f, some pr =>
+      let e : UExpr Rat := ⟨1, UnitArith.run f pr⟩
+      let s := unitStr e
+      let r := unitRepr e
+      some (st, s!"ok\t{Factors.str (UExpr.normF e.factors)}\t{charsToCps s.toList}\t{charsToCps r.toList}\t{resFlat (parseUnit s)}\t{resFlat (parseUnit r)}")
+    | _, _ => none
+  -- `Rational(p).limit_denominator(B)` = `fractions.Fraction.limit_denominator`
+  | ["c20.limden", b, q] =>
+    match b.toNat?, parseRat q with
+    | some B, some x => if B = 0 then none else some (st, s!"ok\t{ratStr (UnitArith.limitDenominator B x)}")
     | _, _ => none
   | _ => none
 
